@@ -1,5 +1,5 @@
 cd /verif
-for p in C04 C15 C16 C19 C13 C11 C12 C14 C01 C02 C03 C05 C06 C07; do
+for p in C04 C15 C16 C19 C18 C13 C11 C12 C14 C01 C02 C03 C05 C06 C07; do
   echo "=== $p $(date +%T)"; ( time ./check $p ) 2>&1 | grep -E "^unit|^OK|^VIOLATION|^UNDECIDED|^KNOWN|real" | cut -c1-220
 done
 echo "=== done $(date +%T)"
